@@ -142,6 +142,15 @@ M = [
  ("M67 io: fast_schedule does not disarm the io timer", "src/io/sys/unix/mod.rs",
   "    pub fn fast_schedule(&self) {\n        let co = match self.co.take() {\n            Some(co) => co,\n            None => return, // it's already take by selector\n        };\n\n        // tell the timer function not to cancel the io. the entry can't be removed here:\n        // this is not the selector thread that consumes the timer list, and only the\n        // consumer may unlink entries, so it stays there disarmed until it expires\n        #[cfg(feature = \"io_timeout\")]\n        if let Some(h) = self.timer.borrow_mut().take() {",
   "    pub fn fast_schedule(&self) {\n        let co = match self.co.take() {\n            Some(co) => co,\n            None => return, // it's already take by selector\n        };\n\n        #[cfg(feature = \"io_timeout\")]\n        if let Some(h) = None::<TimerHandle> {", "C18", 40000),
+ ("M68 io: CoIo closes its fd before the selector forgets it (field order)", "src/io/sys/unix/co_io.rs",
+  "    io: io_impl::IoData,\n    inner: T,\n    #[cfg(feature = \"io_timeout\")]\n    read_timeout: AtomicDuration,",
+  "    inner: T,\n    io: io_impl::IoData,\n    #[cfg(feature = \"io_timeout\")]\n    read_timeout: AtomicDuration,", "C17", 40000),
+ ("M69 selector: local queue not run again after the io time-out handlers", "src/io/sys/unix/epoll.rs",
+  "            if !scheduler.has_queued_tasks(id) {", "            if !scheduler.has_queued_tasks(id) || id < usize::MAX {", "C18", 40000),
+ ("M70 spsc chan: the drop wait of Park is a cancellation point again", "src/sync/spsc.rs",
+  "            let cancel = if is_coroutine() && !std::thread::panicking() {", "            let cancel = if is_coroutine() && !std::thread::panicking() && self.queue.channels.load(Ordering::Relaxed) > 9 {", "C07", 300000),
+ ("M71 timer: deadline of a timed wait wraps for the largest durations", "src/timeout_list.rs",
+  "let time = now().saturating_add(interval);", "let time = now().wrapping_add(interval);", "C08", 40000),
 ]
 
 def run(cmd, **kw):
